@@ -211,6 +211,10 @@ ben('stream-read-renamed-locals', 'UncompressedFile.cpp', [["        std::stream
                                                                    "        std::streamoff off = m_tellg - logContainer->filePosition;\n\n        /* copy data */\n        std::streamsize cnt = std::min(n, static_cast<std::streamsize>(logContainer->uncompressedFileSize - off));\n        std::copy(logContainer->uncompressedFile.cbegin() + off, logContainer->uncompressedFile.cbegin() + off + cnt, s);\n\n        /* remember get count */\n        m_gcount += cnt;\n\n        /* new get position */\n        m_tellg += cnt;\n\n        /* advance */\n        s += cnt;\n\n        /* calculate remaining data to copy */\n        n -= cnt;"]], ['C10', 'C11', 'C07', 'C06'])
 ben('header-guard-positive-form', 'File.cpp', [["    if (ohb.objectSize < ohb.calculateHeaderSize()) {\n        /* an object cannot be smaller than its header; skipping by such a size would never advance */\n        throw Exception(\"File::uncompressedFile2ReadWriteQueue(): Object size is smaller than the object header.\");\n    }\n",
                                                   "    if (!(ohb.objectSize >= ohb.calculateHeaderSize())) {\n        throw Exception(\"File::uncompressedFile2ReadWriteQueue(): Object size is smaller than the object header.\");\n    }\n"]], ['C10', 'C09', 'C08', 'C01'])
+ben('close-extract-helpers', 'File.cpp', [["void File::close() {\n    /* check if file is open */\n    if (!is_open())\n        return;\n\n    /* read */\n    if (m_openMode & std::ios_base::in) {\n        /* finalize compressedFileThread */\n        m_compressedFileThreadRunning = false;\n        m_compressedFile.close();\n\n        /* finalize uncompressedFileThread */\n        m_uncompressedFileThreadRunning = false;\n        m_uncompressedFile.abort();\n\n        /* abort readWriteQueue */\n        m_readWriteQueue.abort();\n\n        /* finalize compressedFileThread */\n        if (m_compressedFileThread.joinable())\n            m_compressedFileThread.join();\n\n        /* finalize uncompressedFileThread */\n        if (m_uncompressedFileThread.joinable())\n            m_uncompressedFileThread.join();\n    }\n",
+                                            "void File::stopReadSession() {\n    /* finalize compressedFileThread */\n    m_compressedFileThreadRunning = false;\n    m_compressedFile.close();\n\n    /* finalize uncompressedFileThread */\n    m_uncompressedFileThreadRunning = false;\n    m_uncompressedFile.abort();\n\n    /* abort readWriteQueue */\n    m_readWriteQueue.abort();\n\n    /* finalize compressedFileThread */\n    if (m_compressedFileThread.joinable())\n        m_compressedFileThread.join();\n\n    /* finalize uncompressedFileThread */\n    if (m_uncompressedFileThread.joinable())\n        m_uncompressedFileThread.join();\n}\n\nvoid File::close() {\n    /* check if file is open */\n    if (!is_open())\n        return;\n\n    /* read */\n    if (m_openMode & std::ios_base::in) {\n        stopReadSession();\n    }\n"]],
+    ['C06', 'C13', 'C05', 'C11', 'C07', 'C04'], 'extract-method: the read-mode shutdown moved into a private helper')
+G[-1]['extra_edits'] = [('File.h', [["    std::ios_base::openmode m_openMode {};", "    std::ios_base::openmode m_openMode {};\n\n    /** stop the two read threads (part of close()) */\n    void stopReadSession();"]])]
 ben('factory-without-parens', 'File.cpp', [["        obj = new CanErrorFrame();", "        obj = new CanErrorFrame;"]], ['C17', 'C01'])
 ben('compression-branch-inverted', 'File.cpp', [["    if (compressionLevel == 0) {\n        /* no compression */\n        logContainer.compress(0, 0);\n    } else {\n        /* zlib compression */\n        logContainer.compress(2, compressionLevel);\n    }", "    if (compressionLevel != 0) {\n        /* zlib compression */\n        logContainer.compress(2, compressionLevel);\n    } else {\n        /* no compression */\n        logContainer.compress(0, 0);\n    }"]], PIPE)
 
@@ -254,7 +258,7 @@ def main():
                 ext.append({'name': 'agent-%s-r%d' % (k_, i_), 'patch': f_, 'properties': sorted(set(props_)),
                             'note': (notes.get('r%d' % i_, {}).get('what') or '')[:200], 'origin': 'sub-agent'})
     idx = {'mutants': [{k: v for k, v in m.items() if k not in ('pairs', 'extra_edits')} for m in M],
-           'benign': [{k: v for k, v in m.items() if k not in ('pairs',)} for m in G] + ext}
+           'benign': [{k: v for k, v in m.items() if k not in ('pairs', 'extra_edits')} for m in G] + ext}
     json.dump(idx, open('/verif/mutants/index.json', 'w'), indent=1)
     print('%d mutants, %d benign variants (+%d from sub-agents)' % (len(M), len(G), len(ext)))
 
